@@ -561,6 +561,14 @@ func (v *verifier) processSignature(ctx context.Context, sigBlob []byte, envelop
 		}
 	}
 
+	if installedPlugin == nil {
+		// the signature does not use a verification plugin, so nothing can
+		// process extended critical attributes
+		for _, attr := range getNonPluginExtendedCriticalAttributes(&outcome.EnvelopeContent.SignerInfo) {
+			return fmt.Errorf("extended critical attribute %q was not processed (all extended critical attributes must be processed by a verification plugin)", attr.Key)
+		}
+	}
+
 	return nil
 }
 
